@@ -75,6 +75,19 @@ fn resolve_str(seed: &StrSeed, page: &Page) -> String {
     for sel in &seed.chars {
         s.push(rep[pick(*sel, rep.len())]);
     }
+    // every 16th string is long: the same characters repeated up to 1000..4500
+    // characters, so that multi-byte characters fall on every kind of block
+    // boundary of a reader or writer that works in blocks
+    if !s.is_empty() && seed.chars.first().map(|c| c % 16 == 7).unwrap_or(false) {
+        let target = 1000 + (seed.chars[0] as usize / 16 % 8) * 500;
+        let pattern = s.clone();
+        let per = pattern.chars().count();
+        let mut n = per;
+        while n < target {
+            s.push_str(&pattern);
+            n += per;
+        }
+    }
     if seed.unrepresentable {
         for c in ['中', 'é', '😀', '\u{80}'] {
             if !page.representable(c) {
@@ -409,7 +422,7 @@ fn sop() -> impl Strategy<Value = SOp> {
 pub fn run(ctx: &Ctx) -> Report {
     let mut rep = Report::new(
         "exploration",
-        "sequences of the ten setters and clearers, code-page switches over all 26 pages in any order (including back to UTF-8), strings of 0..8 characters from the current page's repertoire (every length class modulo 4 in UTF-8 and encoded form, multi-byte characters) plus a class with an unrepresentable character, architecture and languages in either order, creation times from ordinary, extreme and sub-tick generators; save and reopen at generated points in all three close modes and always at the end. Oracles: (a) getters == model immediately, before closing and after reopening; (b) the raw summary stream parsed by the strict independent property-set parser (aligned in-bounds offsets, typed values, contiguous layout, exact section size, stream length) yields the same values by property id. Non-trivial = at least two strings set with utf8_len%4 != encoded_len%4 somewhere, or a code-page switch; distinct by op list.",
+        "sequences of the ten setters and clearers, code-page switches over all 26 pages in any order (including back to UTF-8), strings of 0..8 characters from the current page's repertoire (every length class modulo 4 in UTF-8 and encoded form, multi-byte characters), one string in 16 repeated up to 1000..4500 characters, plus a class with an unrepresentable character, architecture and languages in either order, creation times from ordinary, extreme and sub-tick generators; save and reopen at generated points in all three close modes and always at the end. Oracles: (a) getters == model immediately, before closing and after reopening; (b) the raw summary stream parsed by the strict independent property-set parser (aligned in-bounds offsets, typed values, contiguous layout, exact section size, stream length) yields the same values by property id. Non-trivial = at least two strings set with utf8_len%4 != encoded_len%4 somewhere, or a code-page switch; distinct by op list.",
     );
     rep.assumptions.push("a string with characters its code page cannot represent is only required not to panic, to leave the stream well formed and the other properties intact".into());
     let mut st = Stats::new();
